@@ -141,6 +141,13 @@ def items_for(tier):
             items += searches.scen_cycle(fl, alg, 3, m, ('filter',), prios=prios, transposes=trs)
         items += searches.scen_order(fl, 3, m + 1, ('none', 'foreach'), transposes=trs)
         items += searches.scen_order(fl, 3, m, ('filter',), transposes=trs)
+    # `==` on edges (parallel edges with different values, same and different endpoints)
+    for fl in PAIRS:
+        for seq in ([(0, 1), (0, 1)], [(0, 1), (0, 2)], [(0, 0), (0, 0)], [(0, 1), (1, 0)]):
+            pre = [['connect', u, v, {'s': f'e{j}'}] for j, (u, v) in enumerate(seq)]
+            cmps = [['edge_eq', 0, 0, 0, 0], ['edge_eq', 0, 0, 0, 1]] if seq[1][0] == 0 else [['edge_eq', 0, 0, 1, 0]]
+            items.append((('edge-eq', fl), {'flavour': fl, 'nodes': [[i, 100 + i] for i in range(3)], 'steps': pre + cmps,
+                                           'meta': {'family': 'edge-eq', 'seq': seq}}))
     import containers
     import serde_props
     items += containers.c15_items(tier)
